@@ -19,8 +19,8 @@ CLAIMS = {
          "Decides the structural clauses of C01: every node kind of the supported fragment has a lowering/codegen handler and every reduction/function table is total (code generation never fails for lack of a case), every IndexLambda/Einsum/Call construction site passes an immutable mapping as its own constructor demands, and no hash-ordered iteration feeds loopy code generation (operand/output-order independence). Does NOT decide that generated kernels compute NumPy's values: that needs executing generated code, which static analysis does not do."),
  "C02": ("constructor-keyword dataflow + field-consumption taint over lowering rules (AST flow analysis)",
          "Decides the metadata clause literally (every lowering rule builds its IndexLambda with shape/dtype/axes/tags/non_equality_tags taken from the node) and three necessary conditions of the value clause (every kind has a rule in both registries; every semantic field of the node flows into the emitted expression or bindings; every binding name used in the expression is bound). Does NOT decide the index arithmetic."),
- "C03": ("who-may-call reachability + guard-interval abstract evaluation (AST)",
-         "Decides two clauses: shape/dtype of every concrete kind resolve to a field or run-time property whose call graph never reaches code generation/evaluation (eager availability), and each axis-taking constructor's guard interval lies inside the interval its own shape property can index (rejected at build time, not later). Does NOT decide agreement with NumPy's promotion/broadcast tables."),
+ "C03": ("who-may-call reachability + guard-interval abstract evaluation + sibling agreement of operators / slice halves (AST)",
+         "Decides structural clauses: shape/dtype of every concrete kind resolve to a field or run-time property whose call graph never reaches code generation/evaluation (eager availability), and each axis-taking constructor's guard interval lies inside the interval its own shape property can index (rejected at build time, not later); every sequence splice has a non-negative position; forward and reflected operators agree; slice start and stop are clamped alike, like slice.indices; accumulating loops of shape inference read the accumulator. Does NOT decide agreement with NumPy's promotion/broadcast tables."),
  "C04": ("(node kind, field) enumeration of equality handlers vs hash/pickle field sets by access-path flow analysis",
          "Decides that for every concrete node kind the hand-written equality handler reads every dataclass field (except non_equality_tags) on both operands, that every component entering the hash is compared (equal => equal hash), that comparisons pair the same component of both operands in conjunctive form (symmetry/reflexivity by form), that hand-written hashes aggregate mappings order-free, and that generated pickling state is fields-only. Complete over the finite (kind, field) product; transitivity through third-party leaf __eq__ is trusted."),
  "C05": ("effect analysis (no store/mutating call through handler parameters) + rebuild keyword dataflow (AST flow analysis)",
@@ -30,9 +30,9 @@ CLAIMS = {
  "C07": ("must-pass-through + provenance + tag-conditional inventory (AST path walker)",
          "Decides: every ImplementedResult.to_loopy_expression propagates depends_on on every path; every implementation-strategy branch stores a result derived from the one generated expression and unknown strategies raise; no tag-dependent branch exists in expression-producing lowering code other than the documented AssumeNonNegative promise; tag-changing APIs preserve every non-tag field. Does NOT decide equivalence of generated kernels."),
  "C09": ("collective-sequence agreement across rank branches + who-may-return + same-mapping rule (AST path walker)",
-         "Decides code-shape conditions without which ranks cannot agree: every rank executes the same sequence of MPI collectives on every path (exception edges included) and continues with the broadcast value; parts cannot contain communication nodes (both comm kinds overridden and replaced); both ends of a message are renumbered through one first-seen, strictly increasing map built from an ordered collection. Does NOT decide the partition invariants on concrete partitions."),
+         "Decides code-shape conditions without which ranks cannot agree: every rank executes the same sequence of MPI collectives on every path (exception edges included) and continues with the broadcast value; parts cannot contain communication nodes (both comm kinds overridden and replaced); both ends of a message are renumbered through one first-seen, strictly increasing map built from an ordered collection; a stored array's part bound is the minimum over all sends depending on it; the verifier resolves part inputs against the outputs and receives of all parts. Does NOT decide the partition invariants on concrete partitions."),
  "C10": ("raise-site reachability in the call graph + check-before-insert dominance (AST path walker)",
-         "Decides: each diagnostic named by the property has a raise site reachable from find_distributed_partition/verify_distributed_partition that no handler swallows; every insertion into a send/recv identifier table is dominated by a raising membership test on the same key; comm identifiers for local nodes are only built by the helpers that reject self-communication; the root broadcasts the exception before re-raising. Does NOT decide that every malformed pattern is caught."),
+         "Decides: each diagnostic named by the property has a raise site reachable from find_distributed_partition/verify_distributed_partition that no handler swallows; every insertion into a send/recv identifier table is dominated by a raising membership test on the same key; comm identifiers for local nodes are only built by the helpers that reject self-communication; the root broadcasts the exception before re-raising; no recursion between a duplicate test and the insertion it protects; accumulated part-graph edges are never reassigned; the allreduce merge is a key-wise union; the loop over the broadcast schedule is guarded by global values only. Does NOT decide that every malformed pattern is caught."),
  "C12": ("name-origin abstract evaluation of trace_call + recursion-receiver rule (AST flow analysis)",
          "Decides: the parameter set, the binding keys and the placeholder names built by trace_call are the same strings per argument group; FunctionDefinition.__call__ and Call.__post_init__ check the same relation; every map_function_definition recurses into the body through a fresh/cloned mapper, never self; return-key schemes agree. Does NOT decide value equality of outlined and inlined graphs."),
  "C13": ("(mapper, node kind, edge) enumeration by access-path flow analysis + cache path rules (AST path walker)",
@@ -42,11 +42,11 @@ CLAIMS = {
  "C15": ("must-precede + string-provenance abstract evaluation (AST)",
          "Decides: name generators are seeded with all input and output names before anything is minted; every kernel argument/temporary/iname/instruction name is user-given, an output key, or minted by the seeded generator; the Named path tests for conflicts before adding; NameClashError covers the three named input kinds; bound data is handed back unmodified. Does NOT decide collisions with names loopy invents later."),
  "C16": ("who-may-compare rule on shape-typed operands + decision-shape check (AST)",
-         "Decides that shape components are compared only through are_shape_components_equal/are_shapes_equal (raw ==/!= on shape-typed operands is flagged unless both sides are proven integers), and that the decision procedure returns True only for a constant-zero difference over a sorted parameter space. Does NOT decide generated code for all sizes."),
+         "Decides that shape components are compared only through are_shape_components_equal/are_shapes_equal (raw ==/!= on shape-typed operands is flagged unless both sides are proven integers), and that the decision procedure returns True only for a constant-zero difference over a sorted parameter space, every other exit being integer equality; symbolic components are bound in lowered lambdas under generator-made names. Does NOT decide generated code for all sizes."),
  "C17": ("unordered-iteration analysis with form-based discharge and a reviewed-instance table (AST)",
          "Decides that no iteration over a set/frozenset-typed value (or a dict filled from one), and no id()/hash()-derived ordering, reaches generated names, statement order, part order or tag numbers in the artefact-producing modules, and that the sorted/ordered-set mechanisms the property names are still in place. Complete over the listed modules; ordering inside loopy/islpy/mpi4py is trusted."),
  "C18": ("attribute-flow into the key builder + annotation closure (AST)",
-         "Decides: the ndarray updater feeds dtype, shape and bytes to the key; every repo class reachable through field annotations is a dataclass (all fields keyed) or has an update_persistent_hash reading all its fields; no hash()/id()/unordered iteration inside key updaters; the hash cache is not pickled. Does NOT decide digest collision freedom."),
+         "Decides: the ndarray updater feeds dtype, shape and bytes (logical order) to the key and numpy scalars are keyed with their dtype; key updaters write no shared state and feed compared fields whole; every repo class reachable through field annotations is a dataclass (all fields keyed) or has an update_persistent_hash reading all its fields; no hash()/id()/unordered iteration inside key updaters; the hash cache is not pickled. Does NOT decide digest collision freedom."),
  "C19": ("constructor arity vs dataclass fields + operand-order vs pymbolic field order + cascade contradiction + table totality (AST)",
          "Decides: every HighLevelOp construction binds exactly its fields; ordered operand pairs are extracted in the scalar node's own field order; a value known to be of type T is only handed to a cascade that has a case for T; the op tables cover every type/name the front end emits; producers build the node types the raiser tests for. Does NOT decide pointwise value agreement."),
  "C20": ("converse-relation matrix (users vs predecessors per edge kind) + post-order path rule + count-key rules (AST flow analysis)",
